@@ -751,4 +751,99 @@ example : clearSearch (swapLR cubePts) (cubeHull.reverse.map (fun s => (perm [1,
     = some cubePts := by decide +kernel
 
 
+/-! ### round 6: tie to the source text
+
+`cbv/tables/c18.py` reads the anchored functions of the CURRENT source with `ast` on every run (comparisons, slices, the
+corner recipe, the swap tuple, the handedness sides, the numeric limits) and emits them into `CBV.Gen`; the theorems below
+say that the model's code is what these tables say.  A change of an operator, a constant, an index or the order of the
+recipe in the source breaks one of them. -/
+
+/-- `Except`-valued map in list order (what the list display `[a.f(), b.f(), …]` of the source does) -/
+def mapE {α β : Type} (f : α → Except Err β) : List α → Except Err (List β)
+  | [] => .ok []
+  | a :: as => do
+    let b ← f a
+    let bs ← mapE f as
+    pure (b :: bs)
+
+/-- the eight triple intersections of the model are `quads[a].get_common_point(quads[b], quads[c])` of the source's
+    `sorted_points` list, in its order -/
+theorem T_C18_tie_corner_recipe (q : Quads) :
+    cornersOf q = mapE (fun r => commonPoint (q.get r.1) (q.get r.2.1) (q.get r.2.2)) CBV.Gen.c18CornerRecipe := by
+  simp [cornersOf, mapE, CBV.Gen.c18CornerRecipe, Quads.get, -bind_pure_comp]
+  rfl
+
+/-- the handedness swap uses the source's index tuple, the handedness test the source's three sides -/
+theorem T_C18_tie_swap (out : List V3) : swapLR out = CBV.Gen.c18SwapIdx.map (fun i => out.getD i V3.zero) := rfl
+
+theorem T_C18_tie_hand (out : List V3) :
+    CBV.Gen.c18HandSides = [("side_x", 1, 0), ("side_y", 3, 0), ("side_z", 4, 0)] ∧
+    fixHand out =
+      (let side (k : Nat) := out.getD (CBV.Gen.c18HandSides.getD k ("", 0, 0)).2.1 V3.zero -
+          out.getD (CBV.Gen.c18HandSides.getD k ("", 0, 0)).2.2 V3.zero
+       if det3 (side 0) (side 1) (side 2) < 0 then CBV.Gen.c18SwapIdx.map (fun i => out.getD i V3.zero) else out) :=
+  ⟨by decide, rfl⟩
+
+/-- `_make_triangles` rejects exactly the hulls whose number of simplices is not the source's constant -/
+theorem T_C18_tie_hull_count (pts : List V3) (sim : List (Nat × Nat × Nat)) :
+    CBV.Gen.c18HullCount.1 = "NotEq" ∧
+    (makeTriangles pts sim = .error .notConvex ↔ sim.length ≠ CBV.Gen.c18HullCount.2) := by
+  refine ⟨by decide, ?_⟩
+  unfold makeTriangles
+  have : CBV.Gen.c18HullCount.2 = 12 := rfl
+  rw [this]
+  split <;> simp [*]
+
+/-- the 60° limit of `Quadrangle.__init__`: `dot(n0, n1)/(|n0||n1|) < num/den` with the source's constant, by squares -/
+theorem T_C18_tie_steep (t0 t1 : Tri) :
+    CBV.Gen.c18SteepLimit.1 = "Lt" ∧
+    (tooSteep t0 t1 ↔ V3.dot t0.normalRaw t1.normalRaw < 0 ∨
+      ((CBV.Gen.c18SteepLimit.2.2 : Rat) * CBV.Gen.c18SteepLimit.2.2) *
+          (V3.dot t0.normalRaw t1.normalRaw * V3.dot t0.normalRaw t1.normalRaw) <
+        ((CBV.Gen.c18SteepLimit.2.1 : Rat) * CBV.Gen.c18SteepLimit.2.1) *
+          (V3.norm2 t0.normalRaw * V3.norm2 t1.normalRaw)) := by
+  refine ⟨by decide, ?_⟩
+  have h1 : CBV.Gen.c18SteepLimit.2.1 = 1 := rfl
+  have h2 : CBV.Gen.c18SteepLimit.2.2 = 2 := rfl
+  rw [h1, h2]
+  unfold tooSteep
+  norm_num
+
+/-- `find_shell` takes `face.points[lower:upper]` with the source's bounds -/
+theorem T_C18_tie_shell_slice (s : Sketch) :
+    s.shellOuterPts = s.shell.flatMap (fun f =>
+      ((s.quads.getD f []).drop CBV.Gen.c18ShellSlice.1).take (CBV.Gen.c18ShellSlice.2 - CBV.Gen.c18ShellSlice.1)) := rfl
+
+/-- every comparison and every slice of the anchored functions, the dict literal of `_get_normals`, the sort key and the
+    default radius read as the model implements them (`<` strict everywhere, `TOL` as the only tolerance, `!= 12`,
+    `> 2`, `!= 2`, `> 1`, `!= 1`, `< 0.5`, `< 0`, `[-2:]`, `[1:3]`, front/back/top/bottom/left/right with their signs) -/
+theorem T_C18_tie_guards :
+    CBV.Gen.c18Compares =
+      [("finder.FinderBase._find_by_position", "radius is None"),
+       ("finder.FinderBase._find_by_position", "f.norm(vertex.position - position) < radius"),
+       ("functions.is_point_on_plane", "point_to_plane_distance(origin, normal, point) < constants.TOL"),
+       ("functions.point_to_plane_distance", "norm(origin - point) < constants.TOL"),
+       ("viewpoint.Quadrangle.__init__", "len(triangles) > 2"),
+       ("viewpoint.Quadrangle.__init__", "np.dot(triangles[0].normal, triangles[1].normal) < 0.5"),
+       ("viewpoint.Quadrangle.__init__", "len(common_points) != 2"),
+       ("viewpoint.Quadrangle.__init__", "len(unique_points) != 2"),
+       ("viewpoint.Quadrangle.get_common_point", "len(common_2) > 1"),
+       ("viewpoint.Quadrangle.get_common_points", "f.norm(point_1 - point_2) < constants.TOL"),
+       ("viewpoint.Quadrangle.get_unique_points", "f.norm(point - common_point) < constants.TOL"),
+       ("viewpoint.Triangle.orient", "np.dot(self.center - hull_center, self.normal) < 0"),
+       ("viewpoint.ViewpointReorienter._make_triangles", "len(hull.simplices) != 12"),
+       ("viewpoint.ViewpointReorienter.reorient",
+        "sum((1 for point in sorted_points if f.norm(point - original) < constants.TOL)) != 1"),
+       ("viewpoint.ViewpointReorienter.reorient", "f.norm(point - original) < constants.TOL"),
+       ("viewpoint.ViewpointReorienter.reorient", "np.dot(np.cross(side_x, side_y), side_z) < 0")] ∧
+    CBV.Gen.c18Slices =
+      [("shape.RoundSolidFinder.find_shell", "face.points[1:3]"),
+       ("viewpoint.ViewpointReorienter._get_aligned", "sorted(triangles, key=lambda t: np.dot(t.normal, vector))[-2:]")] ∧
+    CBV.Gen.c18AlignedSlice = (-2, true) ∧ CBV.Gen.c18AlignedKey = "np.dot(t.normal, vector)" ∧
+    CBV.Gen.c18DefaultRadius = ["constants.TOL"] ∧
+    CBV.Gen.c18NormalsDict = [("front", "v_observer"), ("back", "-v_observer"), ("top", "v_ceiling"),
+      ("bottom", "-v_ceiling"), ("left", "v_left"), ("right", "-v_left")] ∧
+    CBV.Gen.c18NormalsDict.map (·.1) = (Dirs.all ⟨V3.zero, V3.zero, V3.zero⟩).map (·.1) := by
+  decide +kernel
+
 end CBV.C18
